@@ -28,6 +28,11 @@ type Obligation struct {
 	Clause *Clause    // the postcondition this obligation checks (replay evaluates it on the real result)
 	Static string // non-empty: decided without a solver: "ok" or failure reason
 	Pos    string
+	// Group/Alt: alternative obligations (lock inference for a field without a protection declaration): the group
+	// holds if, for one alternative, every obligation of the group carrying it holds; the other alternatives are dropped
+	Group   string
+	Alt     string
+	Dropped bool
 	// results
 	Res   SolveResult
 	SMT   string
@@ -69,6 +74,7 @@ type Engine struct {
 	heapInfo map[string]*heapInfo
 	tracks   []*track
 	refBirth map[string]int
+	escaped  map[string]bool // refs allocated by this activation that a closure handed to foreign code captures
 	nalloc   int
 	obls     []*Obligation
 	top      *ssa.Function
